@@ -4,11 +4,11 @@
 CMDS=$1; OUT=$2
 while IFS='|' read -r px demo checks; do
   pid=${px% *}; x=${px#* }
-  case $x in A|B) sd=SEED;; *) sd=SEED2;; esac
+  case $x in A|B) sd=SEED;; C|D) sd=SEED2;; *) sd=SEED3;; esac
   v=$(/verif/verifyseed.sh $pid $x "$demo" 2>&1 | grep -E "rc=|baseline|does not apply|^ok$" | tr '\n' ' ')
   echo "VERIFY $pid $x: $v" >> $OUT
   case "$v" in *"rc=0 ok baseline: 272/272 stable tests pass rc=1"*) ;; *) echo "  (verification NOT as expected, skipping checks)" >> $OUT; continue;; esac
-  mkdir -p /tmp/seed/stage/$pid-$x && cp /tmp/seed/$pid/$sd/$x.diff /tmp/seed/stage/$pid-$x/patch.diff
-  (cd /verif && ./seedtest_wt.sh /tmp/seed/stage/$pid-$x/patch.diff quick $checks) >> $OUT 2>&1
+  mkdir -p /tmp/w2logs/stage/$pid-$x && cp /tmp/seed/$pid/$sd/$x.diff /tmp/w2logs/stage/$pid-$x/patch.diff
+  (cd /verif && ./seedtest_wt.sh /tmp/w2logs/stage/$pid-$x/patch.diff quick $checks) >> $OUT 2>&1
 done < $CMDS
 echo DONE >> $OUT
